@@ -53,7 +53,51 @@ let rule_of = function "pwc" -> Pwc | "localp" -> Localp | "semilocalp" -> Semil
 
 let close a b = Float.abs (a -. b) <= 1e-12 *. Float.max 1.0 (Float.max (Float.abs a) (Float.abs b))
 
+(* ---- grid state machine transcripts and classic selection (C07) ----
+   gs <id> <d>
+   st pidx: i.. nidx: i.. vals: b..          (implementation state; value blocks are opaque strings)
+   op load vals: b.. | op propose cand: i.. | op clear | op merge zero: b
+   sel <id> <rule> <d> limits: i.. pidx: i.. flags: 0/1.. nidx: i..   (classic refinement: expected needed set) *)
+let run_gs file =
+  let lines = read_lines file in
+  let id = ref "" and d = ref 1 and st : string gstate option ref = ref None and zero = ref "0" in
+  let nok = ref 0 and pending : string op option ref = ref None in
+  let show s = Printf.sprintf "points=[%s] needed=[%s] values=[%s]" (String.concat " " (List.map string_of_int (flat s.points)))
+      (String.concat " " (List.map string_of_int (flat s.needed))) (String.concat " " s.values) in
+  List.iter (fun l ->
+      match split_ws l with
+      | "gs" :: i :: dd :: _ -> id := i; d := int_of_string dd; st := None; pending := None
+      | "st" :: rest ->
+        let m = keyed rest in
+        let impl = { points = idxs !d (get "pidx:" m); needed = idxs !d (get "nidx:" m); values = get "vals:" m } in
+        (match !st, !pending with
+         | Some s, Some o ->
+           let s' = step !zero s o in
+           if s'.points = impl.points && s'.needed = impl.needed && s'.values = impl.values then incr nok
+           else Printf.printf "MISMATCH %s grid-state model: %s impl: %s\n" !id (show s') (show impl)
+         | _, _ -> ());
+        st := Some impl; pending := None
+      | "op" :: "load" :: rest -> pending := Some (Load (get "vals:" (keyed rest)))
+      | "op" :: "propose" :: rest -> pending := Some (Propose (idxs !d (get "cand:" (keyed rest))))
+      | "op" :: "clear" :: _ -> pending := Some Clear
+      | "op" :: "merge" :: rest -> (match get "zero:" (keyed rest) with z :: _ -> zero := z | [] -> ()); pending := Some Merge
+      | "sel" :: i :: rule :: dd :: rest ->
+        let m = keyed rest and dd = int_of_string dd in
+        let pts = idxs dd (get "pidx:" m) in
+        let flags = List.map (fun t -> t = "1") (get "flags:" m) in
+        let tbl = List.combine pts flags in
+        let flag q = try List.assoc q tbl with Not_found -> false in
+        let limits = List.map (fun t -> z_of_int (int_of_string t)) (get "limits:" m) in
+        let exp = classic_candidates (rule_of rule) limits pts flag in
+        let impl = idxs dd (get "nidx:" m) in
+        if exp = impl then incr nok
+        else Printf.printf "MISMATCH %s classic-selection model=[%s] impl=[%s]\n" i (String.concat " " (List.map string_of_int (flat exp)))
+            (String.concat " " (List.map string_of_int (flat impl)))
+      | _ -> ()) lines;
+  Printf.printf "agree %d\n" !nok
+
 let () =
+  if Array.length Sys.argv > 2 && Sys.argv.(1) = "--gs" then (run_gs Sys.argv.(2); exit 0);
   let cases = read_lines Sys.argv.(1) and out = ref (read_lines Sys.argv.(2)) in
   let next () = match !out with l :: r -> out := r; l | [] -> "" in
   let nok = ref 0 in
